@@ -407,13 +407,21 @@ Proof. simpl. apply andb_true_r. Qed.
 Definition bump (st : state) (new : list rec) : state :=
   mkS (st_hdr st) (st_time st) (S (st_lnum st)) (st_meta st) (new ++ st_recs st).
 
-Lemma step_bline st m bp bc t l :
+(* "Identical epoch ... given in the SP3 files": a position record directly after the epoch header is dropped when
+   records with the same epoch string exist already *)
+Definition drops (old : list rec) (t : string) (l : bline) : bool :=
+  match l with
+  | LP _ _ _ _ _ _ _ _ _ _ _ _ _ _ _ => existsb (fun r => String.eqb (r_time r) t) old
+  | LOther _ _ => false
+  end.
+
+Lemma step_bline_gen st m bp bc t l :
   st_hdr st = false -> st_time st = Some t -> st_meta st = m -> meta_good m bp bc -> bline_ok l ->
-  (st_lnum st = 1%nat -> forall r, In r (st_recs st) -> r_time r <> t) ->
   startswith "*" (render_bline l) = false /\
-  step spec_tables all_off st (rstrip (render_bline l)) = Some (bump st (recs_of_bline bp bc t l)).
+  step spec_tables all_off st (rstrip (render_bline l)) =
+  Some (bump st (if (st_lnum st =? 1)%nat && drops (st_recs st) t l then [] else recs_of_bline bp bc t l)).
 Proof.
-  intros Hh Ht Hm [[v [Hv Hva]] [Hbp Hbc]] Hok Hdup. destruct l as [sat0 satr x y z clk s1 s2 s3 sc f1 f2 f3 f4 cut|c r].
+  intros Hh Ht Hm [[v [Hv Hva]] [Hbp Hbc]] Hok. destruct l as [sat0 satr x y z clk s1 s2 s3 sc f1 f2 f3 f4 cut|c r].
   - destruct Hok as [K1 [K2 [K3 [K4 [K5 [K6 [K7 [K8 [K9 [K10 [K11 [K12 [K13 K14]]]]]]]]]]]]].
     assert (Hf := P_vals_fits _ _ _ _ _ _ _ _ _ _ _ _ _ K1 K2 K3 K4 K5 K6 K7 K8 K9 K10 K11 K12 K13 K14).
     destruct (position_text_roundtrip _ _ _ _ _ _ _ _ _ _ _ _ _ Hf) as [_ [R2 [R3 _]]].
@@ -429,18 +437,38 @@ Proof.
     + rewrite Hrs. unfold step. rewrite Hh. unfold data_step.
       change (Ascii.eqb "P" "*") with false. change (Ascii.eqb "P" "P") with true. cbv iota.
       unfold position_step. cbn [st_time st_lnum st_recs st_meta st_hdr]. rewrite Ht.
-      assert (Hd : (if (S (st_lnum st) =? 2)%nat then existsb (fun r => String.eqb (r_time r) t) (st_recs st) else false) = false).
-      { destruct (Nat.eqb_spec (S (st_lnum st)) 2); auto. apply existsb_time_false. apply Hdup. lia. }
-      rewrite Hd, Hm, Hv. rewrite <- Hr1, <- HL.
-      change (t_P spec_tables) with spec_P. rewrite R2.
-      rewrite (position_value_roundtrip m t v bp bc) by auto.
-      unfold bump. cbn [recs_of_bline app]. rewrite Hm, Hh, Ht. reflexivity.
+      cbn [drops].
+      replace (S (st_lnum st) =? 2)%nat with (st_lnum st =? 1)%nat by (destruct (st_lnum st) as [|[|k]]; reflexivity).
+      destruct (st_lnum st =? 1)%nat; cbn [andb];
+        [destruct (existsb (fun r => String.eqb (r_time r) t) (st_recs st)) eqn:Hex|].
+      * unfold bump. cbn [app]. rewrite Hh, Ht. reflexivity.
+      * rewrite Hm, Hv. rewrite <- Hr1, <- HL.
+        change (t_P spec_tables) with spec_P. rewrite R2.
+        rewrite (position_value_roundtrip m t v bp bc) by auto.
+        unfold bump. cbn [recs_of_bline app]. rewrite Hm, Hh, Ht. reflexivity.
+      * rewrite Hm, Hv. rewrite <- Hr1, <- HL.
+        change (t_P spec_tables) with spec_P. rewrite R2.
+        rewrite (position_value_roundtrip m t v bp bc) by auto.
+        unfold bump. cbn [recs_of_bline app]. rewrite Hm, Hh, Ht. reflexivity.
   - destruct Hok as [H1 [H2 H3]]. destruct (rstrip_head c r H3) as [r' Hr'].
     split.
     + cbn [render_bline]. rewrite startswith_star_cons. destruct (Ascii.eqb_spec "*" c); [congruence|reflexivity].
     + cbn [render_bline]. rewrite Hr'. unfold step. rewrite Hh.
-      rewrite ignored_lines_spec_l by auto. unfold bump. cbn [recs_of_bline app].
+      rewrite ignored_lines_spec_l by auto. cbn [drops]. rewrite andb_false_r. unfold bump. cbn [recs_of_bline app].
       cbn [st_hdr st_time st_lnum st_meta st_recs]. rewrite ?Hh. reflexivity.
+Qed.
+
+Lemma step_bline st m bp bc t l :
+  st_hdr st = false -> st_time st = Some t -> st_meta st = m -> meta_good m bp bc -> bline_ok l ->
+  (st_lnum st = 1%nat -> forall r, In r (st_recs st) -> r_time r <> t) ->
+  startswith "*" (render_bline l) = false /\
+  step spec_tables all_off st (rstrip (render_bline l)) = Some (bump st (recs_of_bline bp bc t l)).
+Proof.
+  intros Hh Ht Hm Hg Hok Hdup. destruct (step_bline_gen st m bp bc t l Hh Ht Hm Hg Hok) as [H1 H2].
+  split; auto. rewrite H2.
+  destruct (Nat.eqb_spec (st_lnum st) 1) as [E|E]; cbn [andb]; auto.
+  replace (drops (st_recs st) t l) with false; auto.
+  destruct l; auto. cbn [drops]. symmetry. apply existsb_time_false. auto.
 Qed.
 
 Lemma run_blines m bp bc t : forall ls st,
@@ -516,6 +544,23 @@ Proof.
     + split; [discriminate|]. split; auto. rewrite Hrec2, Hrec1. rewrite rev_app_distr, <- List.app_assoc. reflexivity.
 Qed.
 
+(* non-position lines in the data group (EOF, ...) change nothing *)
+Lemma run_trailer : forall ls st, st_hdr st = false -> Forall bline_ok ls -> (forall l, In l ls -> exists c r, l = LOther c r) ->
+  exists st', run spec_tables all_off st false (map render_bline ls) = Some st' /\
+              st_meta st' = st_meta st /\ st_recs st' = st_recs st.
+Proof.
+  induction ls as [|l ls IHl]; intros st Hh Hk Ho; [exists st; auto|].
+    inversion Hk as [|? ? Hk1 Hk2]; subst. destruct (Ho l (or_introl eq_refl)) as [c [r ->]].
+    destruct Hk1 as [K1 [K2 K3]]. destruct (rstrip_head c r K3) as [r' Hr'].
+    cbn [map run render_bline]. rewrite startswith_star_cons.
+    destruct (Ascii.eqb_spec "*" c); [congruence|]. cbn [negb andb]. rewrite Hr'.
+    destruct st as [hd tm ln mt rc]. cbn [st_hdr] in Hh. subst hd.
+    unfold step. cbn [st_hdr st_time st_lnum st_meta st_recs]. rewrite ignored_lines_spec_l by auto.
+    destruct (IHl (mkS false tm (S ln) mt rc)) as [st' [R [M' R']]]; auto.
+    { intros l' Hl'. apply Ho. simpl; auto. }
+    exists st'. auto. 
+Qed.
+
 (* whole file: any header that parses to the meta data m (and leaves the chain in its header group), then any number
    of epoch blocks with pairwise different epochs, then any number of non-position lines (EOF) *)
 Lemma sp3_file_roundtrip_l H n m bp bc bs trailer :
@@ -537,22 +582,109 @@ Proof.
   assert (Hne : flat_map render_block bs <> []).
   { destruct bs as [|b bs']; [congruence|]. cbn [flat_map render_block]. discriminate. }
   rewrite Happ, Hr2 by auto.
-  (* the trailer: non-position lines in the data group *)
-  assert (Ht : forall ls st, st_hdr st = false -> Forall bline_ok ls -> (forall l, In l ls -> exists c r, l = LOther c r) ->
-               exists st', run spec_tables all_off st false (map render_bline ls) = Some st' /\
-                           st_meta st' = st_meta st /\ st_recs st' = st_recs st).
-  { induction ls as [|l ls IHl]; intros st Hh Hk Ho; [exists st; auto|].
-    inversion Hk as [|? ? Hk1 Hk2]; subst. destruct (Ho l (or_introl eq_refl)) as [c [r ->]].
-    destruct Hk1 as [K1 [K2 K3]]. destruct (rstrip_head c r K3) as [r' Hr'].
-    cbn [map run render_bline]. rewrite startswith_star_cons.
-    destruct (Ascii.eqb_spec "*" c); [congruence|]. cbn [negb andb]. rewrite Hr'.
-    destruct st as [hd tm ln mt rc]. cbn [st_hdr] in Hh. subst hd.
-    unfold step. cbn [st_hdr st_time st_lnum st_meta st_recs]. rewrite ignored_lines_spec_l by auto.
-    destruct (IHl (mkS false tm (S ln) mt rc)) as [st' [R [M' R']]]; auto.
-    { intros l' Hl'. apply Ho. simpl; auto. }
-    exists st'. auto. }
-  destruct (Ht trailer st2 (Hh2 Hbs) Htr Htr2) as [st3 [Hr3 [Hm3 Hrec3]]].
+  destruct (run_trailer trailer st2 (Hh2 Hbs) Htr Htr2) as [st3 [Hr3 [Hm3 Hrec3]]].
   rewrite Hr3. rewrite Hm3, Hm2, Hrec3, Hrec2. cbn [st_recs]. rewrite List.app_nil_r, rev_involutive. reflexivity.
+Qed.
+
+(* ------------------------------------------------------------ the same without the assumption of distinct epochs *)
+Definition block_recs_gen (bp bc : Q) (old : list rec) (b : eblock) : list rec :=
+  match b_lines b with
+  | [] => []
+  | l :: ls => ((if drops old (b_time b) l then [] else recs_of_bline bp bc (b_time b) l) ++
+                flat_map (recs_of_bline bp bc (b_time b)) ls)%list
+  end.
+(* accumulator = the records so far, newest first (as in the parser state) *)
+Fixpoint blocks_acc (bp bc : Q) (acc : list rec) (bs : list eblock) : list rec :=
+  match bs with
+  | [] => acc
+  | b :: r => blocks_acc bp bc (rev (block_recs_gen bp bc acc b) ++ acc)%list r
+  end.
+
+Lemma run_block_gen m bp bc b st :
+  st_meta st = m -> meta_good m bp bc -> block_ok b ->
+  exists st', run spec_tables all_off st false (render_block b) = Some st' /\
+              st_hdr st' = false /\ st_meta st' = m /\
+              st_recs st' = (rev (block_recs_gen bp bc (st_recs st) b) ++ st_recs st)%list.
+Proof.
+  intros Hm Hg [Hsep [Hy [Hmo [Hd [Hh [Hmi [Hn Hls]]]]]]].
+  unfold render_block. cbn [run]. unfold epoch_line at 1. cbn [negb andb append startswith].
+  change (Ascii.eqb "*" "*") with true. cbn [andb].
+  set (E := epoch_line _ _ _ _ _ _ _ _ _ _ _ _).
+  assert (HE : rstrip E = E).
+  { apply rstrip_by_rtrimmed. unfold E, epoch_line.
+    repeat (rewrite <- Text.app_assoc).
+    apply rtrimmed_app.
+    - intros X. pose proof (render_F_raw_token 8 (b_n7 b * 10)) as T. rewrite X in T. discriminate.
+    - pose proof (trimmed_token _ (render_F_raw_token 8 (b_n7 b * 10))) as T.
+      apply andb_true_iff in T. apply T. }
+  rewrite HE. unfold step. cbn [boundary st_hdr st_time st_lnum st_meta st_recs]. unfold data_step, E.
+  unfold epoch_line at 1. cbn [append]. change (Ascii.eqb "*" "*") with true. cbv iota.
+  fold (epoch_line (sepn b 0) (sepn b 1) (sepn b 2) (sepn b 3) (sepn b 4) (sepn b 5) (b_y b) (b_mo b) (b_d b) (b_h b) (b_mi b) (b_n7 b)).
+  rewrite epoch_spec_l by auto.
+  match goal with |- context [set_time ?X ?t] => remember (set_time X t) as S1 eqn:ES1 end.
+  assert (F1 : st_hdr S1 = false) by (subst S1; reflexivity).
+  assert (F2 : st_time S1 = Some (b_time b)) by (subst S1; reflexivity).
+  assert (F3 : st_meta S1 = st_meta st) by (subst S1; reflexivity).
+  assert (F4 : st_lnum S1 = 1%nat) by (subst S1; reflexivity).
+  assert (F5 : st_recs S1 = st_recs st) by (subst S1; reflexivity).
+  clear ES1.
+  unfold block_recs_gen. destruct (b_lines b) as [|l ls] eqn:EL.
+  - exists S1. cbn [map run]. rewrite F5. repeat split; auto; congruence.
+  - inversion Hls as [|? ? Hl1 Hls']; subst.
+    destruct (step_bline_gen S1 (st_meta st) bp bc (b_time b) l F1 F2 F3 Hg Hl1) as [Hs Hstep].
+    cbn [map run]. rewrite Hs. cbn [negb andb]. rewrite Hstep.
+    rewrite F4, F5. change (1 =? 1)%nat with true. cbn [andb].
+    set (new := if drops (st_recs st) (b_time b) l then [] else recs_of_bline bp bc (b_time b) l).
+    destruct (run_blines (st_meta st) bp bc (b_time b) ls (bump S1 new)) as [st' [Hr [Hh' [Hm' [_ Hrecs]]]]]; auto.
+    + cbn [bump st_lnum]. rewrite F4. intros X. discriminate X.
+    + cbn [bump st_lnum]. lia.
+    + exists st'. repeat split; auto; try congruence. rewrite Hrecs. cbn [bump st_recs]. rewrite F5.
+      rewrite rev_app_distr, <- List.app_assoc. f_equal. f_equal.
+      unfold new. destruct (drops (st_recs st) (b_time b) l); [reflexivity|destruct l; reflexivity].
+Qed.
+
+Lemma run_blocks_gen m bp bc : forall bs st,
+  st_meta st = m -> meta_good m bp bc -> Forall block_ok bs ->
+  exists st', run spec_tables all_off st false (flat_map render_block bs) = Some st' /\
+              (bs <> [] -> st_hdr st' = false) /\ st_meta st' = m /\
+              st_recs st' = blocks_acc bp bc (st_recs st) bs.
+Proof.
+  induction bs as [|b bs IH]; intros st Hm Hg Hok.
+  - exists st. simpl. repeat split; auto. congruence.
+  - inversion Hok as [|? ? Hb Hbs]; subst.
+    destruct (run_block_gen (st_meta st) bp bc b st eq_refl Hg Hb) as [st1 [Hr1 [Hh1 [Hm1 Hrec1]]]].
+    destruct (IH st1 Hm1 Hg Hbs) as [st2 [Hr2 [Hh2 [Hm2 Hrec2]]]].
+    exists st2. cbn [flat_map].
+    assert (Happ : forall a c s, run spec_tables all_off s false (a ++ c)%list =
+                   match run spec_tables all_off s false a with Some s' => run spec_tables all_off s' false c | None => None end).
+    { induction a as [|l a IHa]; intros c s; auto. cbn [app run].
+      destruct (step spec_tables all_off _ (rstrip l)); auto. }
+    rewrite Happ, Hr1, Hr2. split; auto. split.
+    + intros _. destruct bs; [simpl in Hr2; inversion Hr2; subst; auto|apply Hh2; discriminate].
+    + split; auto. rewrite Hrec2, Hrec1. reflexivity.
+Qed.
+
+(* whole file, epochs may repeat: exactly the records of [blocks_acc] *)
+Lemma sp3_file_roundtrip_gen_l H n m bp bc bs trailer :
+  H <> [] -> run spec_tables all_off init_state true H = Some (mkS true None n m []) ->
+  meta_good m bp bc -> bs <> [] -> Forall block_ok bs ->
+  Forall bline_ok trailer -> (forall l, In l trailer -> exists c r, l = LOther c r) ->
+  parse_file spec_tables all_off (H ++ flat_map render_block bs ++ map render_bline trailer)%list =
+  Some (m, rev (blocks_acc bp bc [] bs)).
+Proof.
+  intros HH Hrun Hg Hbs Hok Htr Htr2. unfold parse_file.
+  assert (Happ : forall a c s f, a <> [] -> run spec_tables all_off s f (a ++ c)%list =
+                 match run spec_tables all_off s f a with Some s' => run spec_tables all_off s' false c | None => None end).
+  { induction a as [|l a IHa]; intros c s f Ha; [congruence|]. cbn [app run].
+    destruct (step spec_tables all_off _ (rstrip l)) as [s2|]; auto.
+    destruct a as [|l' a']; [reflexivity|]. apply IHa. discriminate. }
+  rewrite Happ, Hrun by auto.
+  destruct (run_blocks_gen m bp bc bs (mkS true None n m []) eq_refl Hg Hok) as [st2 [Hr2 [Hh2 [Hm2 Hrec2]]]].
+  assert (Hne : flat_map render_block bs <> []).
+  { destruct bs as [|b bs']; [congruence|]. cbn [flat_map render_block]. discriminate. }
+  rewrite Happ, Hr2 by auto.
+  destruct (run_trailer trailer st2 (Hh2 Hbs) Htr Htr2) as [st3 [Hr3 [Hm3 Hrec3]]].
+  rewrite Hr3. rewrite Hm3, Hm2, Hrec3, Hrec2. reflexivity.
 Qed.
 
 (* ============================================================ 6. as_dataset epochs *)
@@ -715,3 +847,9 @@ Lemma epoch_spec_full_l :
     (0 <= n7 < 1000000000)%Z ->
     date_step spec_tables st (epoch_line s1 s2 s3 s4 s5 s6 y mo d h mi n7) = Some (set_time st (time_string y mo d h mi n7)).
 Proof. intros. apply epoch_spec_l; auto. Qed.
+
+(* the duplicate-epoch rule at work: the same block twice - the first position record of the repetition is dropped *)
+Lemma dup_example :
+  map r_sat (rev (blocks_acc (5 # 4) (41 # 40) [] [ex_block; ex_block])) = ["G01"; "G02"; "G02"] /\
+  map r_sat (flat_map (recs_of_block (5 # 4) (41 # 40)) [ex_block; ex_block]) = ["G01"; "G02"; "G01"; "G02"].
+Proof. split; vm_compute; reflexivity. Qed.
